@@ -272,3 +272,98 @@ def run_domain(ck):
             return native(dict(c))
         report(ck, eng, [('', 'props.C03_D:replay', nat, None)], kind='S')
         functions_interpreted(ck, eng)
+
+
+# ------------------------------------------------------------------------------------------------- induction step (unbounded depth)
+def h_step(kind, va, vb):
+    """compare on pair / option / or whose components are OPAQUE values of arbitrary comparable component types carrying the induction
+    hypothesis "the component's < and == are a strict total order" (symbolic integer ranks: every finite configuration of a total order embeds in Z).
+    PairType is always binary (combs are nested to the right), so these three steps + the leaf cases cover every comparable type of any depth."""
+    from pytezos.michelson.instructions import compare as C
+    from pytezos.michelson import types as Ty
+    from pytezos.michelson.types.base import Undefined
+    from props.C11_P import GLeaf, GT, mk, obj
+    tag = f'{kind}[{va}~{vb}]'
+
+    def h(e: Engine):
+        pool = {}
+        ta, tb = GT('A', pool), GT('B', pool)
+
+        def leaf(name, t):
+            return GLeaf(name, t, e.int('rank_' + name))
+
+        def build(side, var):
+            if kind == 'pair':
+                cls = mk(Ty.PairType, [ta, tb])
+                x, y = leaf(side + '1', ta), leaf(side + '2', tb)
+                return obj(cls, items=(x, y)), ('pair', x, y)
+            if kind == 'option':
+                cls = mk(Ty.OptionType, [ta])
+                if var == 'none':
+                    return obj(cls, item=None), ('none',)
+                x = leaf(side + '1', ta)
+                return obj(cls, item=x), ('some', x)
+            cls = mk(Ty.OrType, [ta, tb])
+            if var == 'left':
+                x = leaf(side + '1', ta)
+                return obj(cls, items=(x, Undefined)), ('left', x)
+            x = leaf(side + '1', tb)
+            return obj(cls, items=(Undefined, x)), ('right', x)
+        a, ka = build('a', va)
+        b, kb = build('b', vb)
+        # the two values are of the SAME type: make the classes identical
+        b.cls = a.cls
+
+        def c(x, y):
+            return sgn(Z(x.rank) < Z(y.rank), Z(x.rank) == Z(y.rank))
+        if kind == 'pair':
+            c1 = c(ka[1], kb[1])
+            want = z3.If(c1 != 0, c1, c(ka[2], kb[2]))
+        else:
+            rk = {'none': 0, 'some': 1, 'left': 0, 'right': 1}
+            if rk[ka[0]] != rk[kb[0]]:
+                want = z3.IntVal(-1 if rk[ka[0]] < rk[kb[0]] else 1)
+            elif ka[0] == 'none':
+                want = z3.IntVal(0)
+            else:
+                want = c(ka[1], kb[1])
+        try:
+            r = e.call(C.compare, [a, b])
+            r2 = e.call(C.compare, [b, a])
+        except RaiseEx as ex:
+            e.check(f'compare.step.{tag}::safety.no_exception[{type(ex.exc).__name__}]', z3.BoolVal(False))
+            return
+        e.check(f'compare.step.{tag}::ensures.result==order(lexicographic / None<Some / Left<Right over the components\' order)', Z(r) == want)
+        e.check(f'compare.step.{tag}::law.antisymmetric', Z(r) == -Z(r2))
+    return h
+
+
+def step_specs():
+    out = [('pair', 'p', 'p')]
+    for a, b in itertools.product(('none', 'some'), repeat=2):
+        out.append(('option', a, b))
+    for a, b in itertools.product(('left', 'right'), repeat=2):
+        out.append(('or', a, b))
+    return out
+
+
+def job_step(*a):
+    return h_step(*a)
+
+
+def run_step(ck):
+    from pytezos.michelson import types as Ty
+    ck.assume('induction over the type: components are opaque values whose own order is a strict total order (IH, symbolic ranks); the leaf cases are the '
+              'symbolic-leaf and domain-type obligations of this check; PairType is binary (right-nested combs)')
+    sp = step_specs()
+    jobs = [(repr(s), 'props.C03_D:job_step', s, dict(max_paths=4000)) for s in sp]
+    for res, s in zip(run_jobs(jobs), sp):
+        if 'error' in res:
+            raise RuntimeError(f"harness {res['label']} crashed:\n{res['error']}")
+        eng = FakeEng(res)
+        report(ck, eng, [('', 'props.C03_D:replay_step', lambda cex: (False, 'opaque components: concrete replays come from the symbolic-leaf and bounded parts'), None)], kind='P')
+        functions_interpreted(ck, eng)
+
+
+def replay_step(case):
+    return False, 'opaque components: concrete replays come from the symbolic-leaf and bounded parts'
